@@ -705,21 +705,41 @@ impl ZiPatch {
             header.write(&mut writer).ok()?;
 
             let base_files = crate::patch::recurse(base_directory);
-            let new_files = crate::patch::recurse(new_directory);
+            // TODO: we filter out zero byte files here, but does SqEx do that?
+            let new_files: Vec<PathBuf> = crate::patch::recurse(new_directory)
+                .into_iter()
+                .filter(|item| fs::metadata(item).map(|m| m.len() > 0).unwrap_or(false))
+                .collect();
 
-            // A set of files not present in base, but in new (aka added files)
+            // Files are the same file if their paths relative to their own directory are the same
+            let base_relative: Vec<&Path> = base_files
+                .iter()
+                .filter_map(|item| item.strip_prefix(base_directory).ok())
+                .collect();
+            let new_relative: Vec<&Path> = new_files
+                .iter()
+                .filter_map(|item| item.strip_prefix(new_directory).ok())
+                .collect();
+
+            // A set of files not present in base or with different contents, but in new (aka added files)
             let added_files: Vec<&PathBuf> = new_files
                 .iter()
                 .filter(|item| {
-                    let metadata = fs::metadata(item).unwrap();
-                    !base_files.contains(item) && metadata.len() > 0 // TODO: we filter out zero byte files here, but does SqEx do that?
+                    let Ok(relative) = item.strip_prefix(new_directory) else {
+                        return false;
+                    };
+                    !base_relative.contains(&relative)
+                        || read(Path::new(base_directory).join(relative)).ok() != read(item).ok()
                 })
                 .collect();
 
             // A set of files not present in the new directory, that used to be in base (aka removedf iles)
             let removed_files: Vec<&PathBuf> = base_files
                 .iter()
-                .filter(|item| !new_files.contains(item))
+                .filter(|item| {
+                    item.strip_prefix(base_directory)
+                        .is_ok_and(|relative| !new_relative.contains(&relative))
+                })
                 .collect();
 
             // Process added files
